@@ -30,6 +30,9 @@ CHECKS["C07"] = dict(technique="differential runtime monitor with two references
 CHECKS["C08"] = dict(technique="differential runtime monitor: match bitmaps over pattern x string arrays (case, [[ == ]]) and pathname-expansion result lists vs bash; Python reference matcher cross-checked",
    text="All patterns up to length 3 (quick) / 4 (thorough) over {a b * ? [ ] ! ^ - \\} against all strings up to the same length over {a b ] - newline A}, well-formed extglob patterns, random patterns with classes/ranges/extglob/multi-byte subjects, with nocasematch and quoted-literal variants, all through the real binary's `case` and `[[ ]]`; pathname expansion over directory trees from subsets of 14 names x 60 globs (incl. quoted segments, dot-files) x 8 option sets, compared with bash including order.",
    note="bash 5.2.15 under C.utf8 authoritative; open findings: POSIX classes are ASCII-only (C08-F1), negated extglob groups in context (C08-F2); nocase ranges and degenerate empty extglob groups are not generated", ref="5 C08")
+CHECKS["C06"] = dict(technique="batched differential runtime monitor (bash reference) over a systematic operator x value x operand grid; definitional shortest/longest-match oracle with a reference matcher",
+   text="About 24k generated ${...} forms - length, substring over a full offset x length grid (negative/zero/in-range/out-of-range/arithmetic), # ## % %% over 32 patterns, the four replace forms, case modification with patterns, @Q U L u E A a, defaults/alternates/errors over set/null/unset/declared states and operand quoting, indirection, prefix-name listing, positional/indexed/sparse/empty/associative lists, several expansions inside one word, with and without nounset - each passed quoted and unquoted to an external argv dumper by the real brush binary and compared with bash (values, field counts, status). Prefix/suffix removal results are additionally checked against the definition (shortest/longest matching, empty match included).",
+   note="bash 5.2.15 under C.utf8; open findings fence sparse-array slicing, alternates on empty lists, @a on lists, @u, @A of unset, & in replacements, indirect expansion of unset (C06-F1..F6, C03-N3)", ref="5 C06")
 NA = {}
 
 def main():
